@@ -1,5 +1,6 @@
 import logging
 import os
+from contextlib import suppress
 from functools import partial
 
 from textx.export import PlantUmlRenderer, metamodel_export, model_export
@@ -42,7 +43,14 @@ def gen_file(
     """
     if overwrite or not os.path.exists(output_file):
         logger.info("-> %s", output_file)
-        gen_callback()
+        try:
+            gen_callback()
+        except BaseException:
+            # Do not leave a partially written file behind. It would be
+            # skipped as already generated in the next run.
+            with suppress(OSError):
+                os.remove(output_file)
+            raise
         logger.info("     %s", success_message)
     else:
         logger.warning("-- NOT overwriting: %s", output_file)
